@@ -823,7 +823,7 @@ func (c *c20) RunCase(r *fw.Rec, cs fw.Case) {
 
 func (c *c20) Finish(m *fw.Merged, tier string) {
 	for _, k := range []string{"a:trees", "a:root:bin", "a:root:un", "a:root:cond", "b:layouts", "b:with-newline", "b:legal", "b:illegal(both rejected)",
-		"c:literals", "c:ref-accepts:int", "c:ref-accepts:float", "c:ref-accepts:char", "c:ref-accepts:string", "c:ref-rejects"} {
+		"d:roundtrips", "d:identical-bytecode", "c:literals", "c:ref-accepts:int", "c:ref-accepts:float", "c:ref-accepts:char", "c:ref-accepts:string", "c:ref-rejects"} {
 		if m.Counters[k] == 0 {
 			m.Fail("never observed: " + k)
 		}
